@@ -15,7 +15,7 @@ import random
 
 import numpy as np
 
-from .. import core, motlsys, motlutil
+from .. import argguard, core, motlsys, motlutil
 
 FIELDS = motlutil.FIELDS
 KEYCOL = {"sid": "subtomo_id", "tomo": "tomo_id", "obj": "object_id", "cls": "class", "score": "score"}
@@ -129,69 +129,163 @@ def cols_ok(cols):
 
 
 # ---- the calls under test ------------------------------------------------------------------------------
-def apply_op(cm, A, B, op, variant):
-    """Performs the cryoCAT call named by op on the live objects.  Returns (A', parts or None)."""
+# accepted storage forms of a request ("array-like or int": list, tuple, ndarray of any dtype / writeability, pandas
+# Series, integer lists, Python and numpy scalars)
+FORMS_SUBSET = ["list", "scalar", "intlist", "npscalar", "intscalar", "ndarray", "tuple", "series", "intndarray", "roarray"]
+FORMS_REMOVE = ["list", "ndarray", "scalar", "intndarray", "npscalar", "roarray", "tuple", "series", "intlist", "intscalar"]
+FUNCTIONAL = {"subset", "split", "intersect", "merge_renumber", "merge_dropdup"}     # return a new list, self untouched
+
+
+def value_arg(vals, form):
+    if not vals or (len(vals) > 1 and form in ("scalar", "npscalar", "intscalar")):
+        form = "list" if not vals else {"scalar": "list", "npscalar": "list", "intscalar": "intlist"}[form]
+    if form == "list":
+        return list(vals)
+    if form == "intlist":
+        return [int(v) for v in vals]
+    if form == "scalar":
+        return float(vals[0])
+    if form == "intscalar":
+        return int(vals[0])
+    if form == "npscalar":
+        return np.float64(vals[0]) if int(vals[0]) % 2 else np.int64(vals[0])
+    if form == "intndarray":
+        return np.array(vals, dtype=np.int64)
+    if form == "tuple":
+        return tuple(vals)
+    if form == "series":
+        import pandas as pd
+        return pd.Series(list(vals), index=[3 + 2 * i for i in range(len(vals))])
+    arr = np.array(vals, dtype=float)
+    if form == "roarray":
+        arr.setflags(write=False)
+    return arr
+
+
+def apply_op(cm, A, B, op, variant, io=None):
+    """Performs the cryoCAT call named by op on the live objects.  Returns (A', parts or None).  io["guard"] is the
+    snapshot of every argument object of the call, io["again"] repeats the call with the very same argument objects."""
     Motl = cm.Motl
     name = op["name"]
+    io = io if io is not None else {}
+    args = {"B": B.df}
+    if name in FUNCTIONAL:
+        args["this"] = A.df
+
+    def call(fn):
+        io["guard"] = argguard.Guard(**args)
+        io["again"] = fn if name in FUNCTIONAL else None
+        return fn()
+
     if name == "subset":
         vals = [float(v + BASES[op["f"]]) for v in op["vals"]]
-        arg = vals[0] if (len(vals) == 1 and variant % 2 == 0) else (vals if variant % 3 else [int(v) for v in vals])
+        arg = value_arg(vals, FORMS_SUBSET[variant % len(FORMS_SUBSET)])
+        args["values"] = arg
         f = KEYCOL[op["f"]]
-        if variant % 5 == 0:
-            return Motl(A.get_motl_subset(arg, feature_id=f, return_df=True)), None
-        if variant % 5 == 1:
-            return A.get_motl_subset(arg, feature_id=f, reset_index=False), None
-        if f == "tomo_id" and variant % 5 == 2:
-            return A.get_motl_subset(arg), None
-        return A.get_motl_subset(arg, f), None
+        v = variant % 6
+        if v == 0:
+            return call(lambda: Motl(A.get_motl_subset(arg, feature_id=f, return_df=True))), None
+        if v == 1:
+            return call(lambda: A.get_motl_subset(arg, feature_id=f, reset_index=False)), None
+        if v == 2:
+            return call(lambda: Motl(A.get_motl_subset(arg, f, True, False))), None          # return_df and no reset
+        if f == "tomo_id" and v == 3:
+            return call(lambda: A.get_motl_subset(arg)), None
+        if v == 4:
+            return call(lambda: A.get_motl_subset(feature_values=arg, feature_id=f, return_df=False, reset_index=True)), None
+        return call(lambda: A.get_motl_subset(arg, f)), None
     if name == "remove":
         vals = [float(v + BASES[op["f"]]) for v in op["vals"]]
-        if len(vals) == 1 and variant % 2 == 0:
-            arg = vals[0]
-        elif variant % 3 == 0:
-            arg = np.array(vals)
+        arg = value_arg(vals, FORMS_REMOVE[variant % len(FORMS_REMOVE)])
+        args["values"] = arg
+        if variant % 4 == 3:
+            call(lambda: A.remove_feature(feature_id=KEYCOL[op["f"]], feature_values=arg))
         else:
-            arg = vals
-        A.remove_feature(KEYCOL[op["f"]], arg)
+            call(lambda: A.remove_feature(KEYCOL[op["f"]], arg))
         return A, None
     if name == "split":
-        parts = A.split_by_feature(KEYCOL[op["f"]])
+        parts = call(lambda: A.split_by_feature(KEYCOL[op["f"]]) if variant % 2 else
+                     A.split_by_feature(KEYCOL[op["f"]], write_out=False, output_prefix=""))
         k = op["k"] - 1
         return (parts[k] if k < len(parts) else Motl()), parts
     if name == "intersect":
         f = op.get("f", "sid")
         if f == "sid" and variant % 2 == 0:
-            return Motl.get_motl_intersection(A, B), None
+            return call(lambda: Motl.get_motl_intersection(A, B)), None
         if variant % 3 == 0:
-            return Motl.get_motl_intersection(A, B, KEYCOL[f]), None
-        return Motl.get_motl_intersection(A, B, feature_id=KEYCOL[f]), None
+            return call(lambda: Motl.get_motl_intersection(A, B, KEYCOL[f])), None
+        return call(lambda: Motl.get_motl_intersection(A, B, feature_id=KEYCOL[f])), None
     if name == "dropdup":
         if op["f"] == "sid" and not op["asc"] and variant % 2 == 0:
-            A.drop_duplicates()
+            call(lambda: A.drop_duplicates())
+        elif variant % 3 == 0:
+            call(lambda: A.drop_duplicates(KEYCOL[op["f"]], "score", bool(op["asc"])))
         else:
-            A.drop_duplicates(duplicates_column=KEYCOL[op["f"]], decision_column="score",
-                              decision_sort_ascending=bool(op["asc"]))
+            call(lambda: A.drop_duplicates(duplicates_column=KEYCOL[op["f"]], decision_column="score",
+                                           decision_sort_ascending=bool(op["asc"])))
         return A, None
     if name in ("merge_renumber", "merge_dropdup"):
-        # "a2" / "b2": re-tagged copies of the registers, built from the rows the specification logged with the call
+        # "a2" / "b2": re-tagged copies of the registers, built from the rows the specification logged with the call;
+        # an input is handed over as a Motl or (variant) as its DataFrame
         pool = {"a": A, "b": B}
-        for nm in ("a2", "b2"):
+        for j, nm in enumerate(("a2", "b2")):
             if nm in op["order"]:
-                pool[nm] = Motl(rows_to_df(op[nm]))
+                pool[nm] = Motl(motlutil.vary_columns(motlutil.vary_index(rows_to_df(op[nm]), variant + j), variant // 2 + j))
         lst = [pool[nm] for nm in op["order"]]
+        if variant % 4 == 2:
+            lst = [m if j % 2 == 0 else m.df for j, m in enumerate(lst)]
+        args["inputs"] = [m.df if hasattr(m, "df") else m for m in lst]
+        args["input_list"] = lst
         if name == "merge_renumber":
-            return Motl.merge_and_renumber(lst), None
-        return Motl.merge_and_drop_duplicates(lst), None
+            return call(lambda: Motl.merge_and_renumber(lst)), None
+        return call(lambda: Motl.merge_and_drop_duplicates(lst)), None
     if name == "renumber_particles":
-        A.renumber_particles()
+        call(lambda: A.renumber_particles())
         return A, None
     if name == "renumber_objects":
-        if op["start"] == 1 and variant % 2 == 0:
-            A.renumber_objects_sequentially()
+        start = op["start"]
+        if start == 1 and variant % 2 == 0:
+            call(lambda: A.renumber_objects_sequentially())
+        elif variant % 3 == 0:
+            call(lambda: A.renumber_objects_sequentially(starting_number=start))
         else:
-            A.renumber_objects_sequentially(op["start"])
+            call(lambda: A.renumber_objects_sequentially(start))
         return A, None
     raise core.MachineryError("unknown op %r" % (op,))
+
+
+def first_seen(values):
+    out = []
+    for v in values:
+        if v not in out:
+            out.append(v)
+    return out
+
+
+def queries(A):
+    """get_unique_values of the four key columns and get_feature("subtomo_id") on the live object, as abstract values."""
+    uniq = []
+    for f in ("sid", "tomo", "obj", "cls"):
+        vals = np.asarray(A.get_unique_values(KEYCOL[f]), dtype=float).ravel()
+        uniq.append([_int_or(float(v), -1, BASES[f]) for v in vals])
+    feat = np.asarray(A.get_feature("subtomo_id"), dtype=float).ravel()
+    return uniq, [_int_or(float(v), -1, BASES["sid"]) for v in feat]
+
+
+def read_only_calls(cm, A, B, variant):
+    """Public calls that only read: made between the operations of a history; nothing may leak from them."""
+    col = list(KEYCOL.values())[variant % 5]
+    A.get_unique_values(col)
+    A.get_feature(col)
+    A.get_coordinates()
+    if A.df.shape[0]:
+        A.get_rotations()
+        A.get_angles()
+    str(A)
+    cm.Motl.check_df_correct_format(A.df)
+    cm.Motl.create_empty_motl_df()
+    cm.Motl.load(B)
+    B.get_motl_subset(float(BASES["tomo"] + 1), reset_index=False, return_df=True)
 
 
 def sig_of(op):
@@ -287,18 +381,34 @@ def _set_history_bases(steps, variant):
 
 def _run_history(ctx, judge, a0, b0, steps, variant, kind, sample_all, case):
     from cryocat import cryomotl as cm
-    # row labels of the input tables: default, permuted or gapped (a list handed to cryoCAT may be any DataFrame)
-    A = cm.Motl(motlutil.vary_index(rows_to_df(a0), variant // 3))
-    B = cm.Motl(motlutil.vary_index(rows_to_df(b0), variant // 7))
+
+    def table(rows, k):
+        # row labels (default / permuted / gapped / repeated), integer id columns and column order of the input tables
+        # vary: a list handed to cryoCAT may be any DataFrame with the 20 named columns
+        return cm.Motl(motlutil.repeat_labels(motlutil.vary_columns(motlutil.vary_index(rows_to_df(rows), k), k // 2), k // 5))
+
+    A = table(a0, variant // 3)
+    B = table(b0, variant // 7)
     exp_a, exp_b = a0, b0
+    earlier = []                       # guards of tables earlier calls returned / left behind
     for i, st in enumerate(steps):
         op = st["op"]
         if op["name"] == "fork":
             exp_b = st["b"]
             exp_a = st["a"]
-            B = cm.Motl(motlutil.vary_index(rows_to_df(exp_b), variant // 7 + i))          # harness operation: a fresh table from the specification's state
+            B = table(exp_b, variant // 7 + i)          # harness operation: a fresh table from the specification's state
             continue
-        (res, err) = core.call_guarded(apply_op, cm, A, B, op, variant + i)
+        if (variant + i) % 4 == 1:
+            g = argguard.Guard(A=A.df, B=B.df)
+            _, err = core.call_guarded(read_only_calls, cm, A, B, variant + i)
+            why = g.changed() if err is None else None
+            if err is not None or why:
+                ctx.fail("call_raises" if err else "C08_ArgumentsUntouched",
+                         "read-only calls before step %d: %s" % (i, err or why), case, {"op": "read_only"})
+                break
+        io = {}
+        old_A = A
+        (res, err) = core.call_guarded(apply_op, cm, A, B, op, variant + i, io)
         if err is not None:
             ctx.fail("call_raises", "step %d %s: %s" % (i, json.dumps(op)[:200], err), case, sig_of(op))
             break
@@ -308,11 +418,40 @@ def _run_history(ctx, judge, a0, b0, steps, variant, kind, sample_all, case):
         st_rows = ctx.extra.setdefault("rows_after_step", {"0": 0, "1-3": 0, "4-20": 0, "21-100": 0, "101+": 0})
         nr = len(st["a"])
         st_rows["0" if nr == 0 else "1-3" if nr <= 3 else "4-20" if nr <= 20 else "21-100" if nr <= 100 else "101+"] += 1
+        argchg = io["guard"].changed() if io.get("guard") is not None else None
+        gone = None
+        for label, g in earlier:
+            gone = g.changed()
+            if gone:
+                gone = "%s: %s" % (label, gone)
+                break
         got_a, cols_a = project(A.df)
+        if not argchg and not gone and io.get("again") is not None and (variant + i) % 4 == 0:
+            # the same call once more with the very same argument objects: it must give the same list again
+            again, err = core.call_guarded(io["again"])
+            if err is not None:
+                ctx.fail("call_raises", "step %d %s repeated with the same argument objects: %s" % (i, json.dumps(op)[:200], err),
+                         case, sig_of(op))
+                break
+            again = again[op["k"] - 1] if isinstance(again, list) and op["name"] == "split" and op["k"] <= len(again) else again
+            if hasattr(again, "df"):
+                got_2, cols_2 = project(again.df)
+                if got_2 != got_a or cols_2 != cols_a:
+                    got_a, cols_a = got_2, cols_2          # judged below: the repeated call's list
+            argchg = io["guard"].changed()
         got_b, cols_b = project(B.df)
         cols = [cols_a]
-        rec = {"op": {k: v for k, v in op.items() if k != "parts"}, "a0": exp_a, "b0": exp_b, "a": got_a, "b": got_b}
-        same = got_a == st["a"] and got_b == exp_b and cols_ok(cols_a)
+        # the same read-only queries after every operation (in-place ones and rebinding ones alike): they must describe
+        # the table as it is now
+        q, qerr = core.call_guarded(queries, A)
+        # (a query that raises is recorded as an impossible answer: MotlSetTrace names the clause - a broken table is a
+        # C08_Schema / C08_TagsIntact failure first)
+        uniq, featsid = q if qerr is None else ([[-2]] * 4, [-2])
+        rec = {"op": {k: v for k, v in op.items() if k != "parts"}, "a0": exp_a, "b0": exp_b, "a": got_a, "b": got_b,
+               "argchg": argchg or "", "earlier": gone or "", "uniq": uniq, "featsid": featsid}
+        same = got_a == st["a"] and got_b == exp_b and cols_ok(cols_a) and not argchg and not gone
+        same = same and featsid == [r[0] for r in got_a] and all(uniq[m] == first_seen([r[j] for r in got_a])
+                                                                   for m, j in enumerate((0, 1, 2, 4)))
         if parts is not None:
             pp = [project(p.df) for p in parts]
             rec["parts"] = [p[0] for p in pp]
@@ -325,6 +464,12 @@ def _run_history(ctx, judge, a0, b0, steps, variant, kind, sample_all, case):
         if sample_all:
             judge.add(rec, case, False)
             judge.sampled += 1
+        # what this call returned / left behind is re-inspected after the later calls of the history
+        if op["name"] in FUNCTIONAL:
+            earlier.append(("list before step %d" % i, argguard.Guard(df=old_A.df)))
+            if parts is not None:
+                earlier.append(("parts of step %d" % i, argguard.Guard(parts=[p.df for j, p in enumerate(parts) if j != op["k"] - 1])))
+        earlier = earlier[-4:]
         exp_a = st["a"]
         if st.get("bch"):
             exp_b = st["b"]
@@ -491,7 +636,7 @@ def run(ctx):
         names = set(t["op"]["name"] for t in trs)
         if len(names) != 10:
             raise core.MachineryError("coverage hole: operations emitted = %s" % sorted(names))
-        budget = ctx.pick(2000, 30000)
+        budget = ctx.pick(750, 22000)
         # deterministic sub-sample by hash of (seed, transition), the budget shared evenly by the operation kinds
         keyed = sorted(trs, key=lambda t: core.stable_hash([ctx.seed, t]))
         by_kind = {}
@@ -507,15 +652,15 @@ def run(ctx):
             run_history(ctx, judge, t["a0"], t["b0"], [{"op": t["op"], "a": t["a"], "bch": t["b"] != t["b0"], "b": t["b"]}],
                         variant=(ctx.seed * 7919 + i) % 100003, kind="transition", sample_all=(i % 10 == 0))
     if want("trm"):
-        medium_transitions(ctx, judge, ctx.pick(24, 300), ctx.pick(500, 12000))
+        medium_transitions(ctx, judge, ctx.pick(14, 240), ctx.pick(200, 8000))
     if want("sim"):
         rng = random.Random(ctx.seed + 17)
         small = [rng.randint(0, 8) for _ in range(ctx.pick(40, 300))]
-        simulate(ctx, judge, "sim_small", small, ctx.pick(120, 2500), 30, 1, True, True, ctx.pick(120, 2500))
+        simulate(ctx, judge, "sim_small", small, ctx.pick(80, 2500), 30, 1, True, True, ctx.pick(80, 2500))
         simulate(ctx, judge, "sim_empty", [rng.randint(0, 4) for _ in range(20)], ctx.pick(30, 400), 12, 0, True, True,
                  ctx.pick(30, 400))
         med = [rng.randint(9, 40) for _ in range(ctx.pick(10, 60))]
-        simulate(ctx, judge, "sim_medium", med, ctx.pick(25, 600), 120, 4, False, False, ctx.pick(25, 600), third=True)
+        simulate(ctx, judge, "sim_medium", med, ctx.pick(15, 600), 120, 4, False, False, ctx.pick(15, 600), third=True)
         if not ctx.quick:
             big = [rng.choice([100, 150, 200, rng.randint(41, 200)]) for _ in range(12)]
             simulate(ctx, judge, "sim_large", big, 60, 200, 20, False, False, 60, third=True)
